@@ -91,7 +91,7 @@ def behaviour(p, rng, steps):
         elif op in ('cell_copy', 'cell_to_builder'):
             p.call({'op': op, 'obj': rng.choice(C), 'new': p.next})
         elif op == 'order':
-            p.call({'op': op, 'obj': rng.choice(C), 'via': rng.choice(['default', 'default', 'explicit'])})
+            p.call({'op': op, 'obj': rng.choice(C), 'via': rng.choice(['default', 'default', 'explicit', 'reuse', 'edit']), 'other': rng.choice(C)})
         elif op == 'observe':
             p.call({'op': op, 'obj': rng.choice(C)})
         elif op in ('load', 'preload'):
